@@ -6,7 +6,7 @@ from scipy import sparse as sp
 from skgstat import MetricSpace
 from skgstat.MetricSpace import MetricSpacePair, ProbabalisticMetricSpace
 
-from .common import frs, fr, parse_ints, quiet, close, gen_coords
+from .common import frs, fr, parse_ints, quiet, close, gen_coords, as_caller_dtype
 from .common import guarded
 from . import vario
 
@@ -40,7 +40,7 @@ def check_space(ctx, rng):
         md = float(rng.choice(exact)) if exact else float(rng.uniform(0.3, 0.9) * bd.max())
     case = dict(coords=coords.tolist(), metric=metric, max_dist=md, kind=kind)
     with quiet():
-        ms = MetricSpace(coords.copy(), metric, md)
+        ms = MetricSpace(as_caller_dtype(rng, coords.copy()), metric, md)
         D = ms.dists
     is_sparse = sp.issparse(D)
     ctx.count('space:' + ('sparse' if is_sparse else 'dense'))
@@ -135,7 +135,8 @@ def check_pair(ctx, rng):
             continue
         use_md = md if mode == 'sparse' else None
         with quiet():
-            pair = MetricSpacePair(MetricSpace(q.copy(), metric, use_md), MetricSpace(obs.copy(), metric, use_md))
+            pair = MetricSpacePair(MetricSpace(as_caller_dtype(rng, q.copy()), metric, use_md),
+                                   MetricSpace(as_caller_dtype(rng, obs.copy()), metric, use_md))
             results[mode] = [list(map(int, pair.find_closest(i, md, N))) for i in range(m)]
     ctx.count('pair:' + kind)
     ctx.count('N:%d' % N)
@@ -189,11 +190,12 @@ def check_sampled(ctx, rng):
     seed_obj = seed if seed_type == 'int' else getattr(np, seed_type)(seed)
     md = None if rng.random() < 0.5 else float(rng.uniform(20, 80))
     case = dict(coords=coords.tolist(), samples=samples, seed=seed, seed_type=seed_type, max_dist=md)
+    coords_in = as_caller_dtype(rng, coords)
     mats = []
     for rep in range(2):
         np.random.seed(int(rng.integers(0, 2 ** 31)))      # the global stream must not matter for a seeded space
         with quiet():
-            pm = ProbabalisticMetricSpace(coords.copy(), 'euclidean', md, samples=samples, rnd=seed_obj)
+            pm = ProbabalisticMetricSpace(coords_in.copy(), 'euclidean', md, samples=samples, rnd=seed_obj)
             D = pm.dists.tocoo()
             mats.append((sorted(zip(D.row.tolist(), D.col.tolist(), D.data.tolist())), pm.lidx.copy(), pm.ridx.copy()))
     ent, lidx, ridx = mats[0]
